@@ -77,6 +77,8 @@ class LinearConstraintsConfig(ImmutableBaseModel):
 
     @model_validator(mode="after")
     def _broadcast_and_check(self) -> Self:
+        if self._is_validated():
+            return self
         size = 0 if self.coefficients is None else self.coefficients.shape[0]
         lower_bounds = broadcast_1d_array(self.lower_bounds, "lower_bounds", size)
         upper_bounds = broadcast_1d_array(self.upper_bounds, "upper_bounds", size)
